@@ -10,6 +10,8 @@ def run(c):
     proxylib.identity_history(c, "C01")
     from checks import c07
     c07.late_record(c, "C01")
+    # nothing sent on a connection without a record of its own is relayed, whatever the accept queue holds
+    c07.burst_reuse_check(c, "C01", 100 if c.tier != "thorough" else 400)
 
 
 def replay(c, path):
